@@ -77,7 +77,7 @@ func discharge(obls []*vc.Obligation, dir string, timeoutS int, all bool) []oblR
 			name := fmt.Sprintf("q%04d", i)
 			t := timeoutS
 			if o.ExpectSat {
-				t = 5
+				t = 2
 			}
 			r := smt.Solve(q, dir, name, t, all && !o.ExpectSat)
 			res[i] = oblResult{o, r}
@@ -196,4 +196,3 @@ func indent(s, pre string) string {
 
 func cmdReplay(args []string) int   { fmt.Println("replay: not built yet"); return 2 }
 func cmdSelftest(args []string) int { fmt.Println("selftest: not built yet"); return 2 }
-func cmdCheck(args []string) int    { fmt.Println("check: not built yet"); return 2 }
